@@ -119,6 +119,40 @@ def register(op):
         fresh()
         return res
 
+    @op("c10_order")
+    def _(arg):
+        """several objects of one kind alive together: the whole relation (all ordered pairs), and sorted()/min()/max() of the
+        given arrangements of them; arg = ["order", kind, specs, perms]"""
+        _, kind, specs, perms = arg
+        fresh()
+        if kind == "domain":
+            objs = [dom(*s) for s in specs]
+            keys = [[o.name, o.length] for o in objs]
+        elif kind == "complex":
+            objs = [cplx(s) for s in specs]
+            keys = [ckey(o) for o in objs]
+        elif kind == "macrostate":
+            objs = [macro(s) for s in specs]
+            keys = [mkey(o) for o in objs]
+        else:
+            k = kind[-1]
+            objs = [rxn(s, k) for s in specs]
+            keys = [rkey(o, k) for o in objs]
+        n = len(objs)
+        first = [min(j for j in range(n) if objs[j] is objs[i]) for i in range(n)]     # identical objects: one index
+        rel = [[ops(objs[i], objs[j]) for j in range(n)] for i in range(n)]
+        idx = lambda o: min(j for j in range(n) if objs[j] is o)
+        arr, xs = [], None
+        for p in perms:
+            xs = [objs[i] for i in p]
+            arr.append([[idx(o) for o in sorted(xs)], idx(min(xs)), idx(max(xs)), [idx(o) for o in sorted(xs, reverse=True)]])
+        again = [[ops(objs[i], objs[j]) for j in range(n)] for i in range(n)]
+        if again != rel:
+            raise RuntimeError("the operators answer differently after sorted()/min()/max() were used")
+        del objs, xs
+        fresh()
+        return [keys, first, rel, arr]
+
     @op("c10_readonly")
     def _(arg):
         kind, spec = arg
